@@ -129,9 +129,9 @@ CLAIMED.update({
                "invariant requires a readable stored priority). No crash/hang/unbounded work under arbitrary record bytes is decided by the monitor and the process "
                "watchdog on tamper scenarios.", "5.13 and 11", TECH),
     "C18": sim("Theorem (Coq, Props/C18.v, from the table of status writers regenerated from the source on every run, gen/GenStatus.v): whatever groups of stores "
-               "to isLeader / state / leaderID run, in whatever order and number, between any two of them IsLeader is true exactly when State is LEADER, a leader's "
-               "LeaderID is its own id and State is a documented value; every group holds kvElection.mu exclusively and Status() loads the three fields inside the same "
-               "lock, so every snapshot is taken between two groups. PARTIAL: token, revision, convergence of a follower's LeaderID, the gauge and the transition chain "
+               "to isLeader / state / leaderID / token run, in whatever order and number, between any two of them IsLeader is true exactly when State is LEADER, a leader's "
+               "LeaderID is its own id, its token is the one its term was promoted with and State is a documented value; every group holds kvElection.mu exclusively and Status() loads the three fields inside the same "
+               "lock, so every snapshot is taken between two groups. PARTIAL: revision, convergence of a follower's LeaderID, the gauge and the transition chain "
                "are decided by the monitor: every Status() snapshot at every quiescent point, every gauge and transition event of every simulated trace is compared with "
                "the model's instance state.", "5.18, 11 and 12.9", TECH),
     "C19": sim("Theorems (Coq, Props/C19.v, from the table regenerated from the source on every run, gen/GenTermCtx.v: every way through every exclusive section of "
